@@ -24,7 +24,7 @@ void h_sm2_compute_z(void)
 	CANARY("returned");
 }
 
-//@job name=sm2_sign_finish props=C01,C06 enforce=sm2_sign_finish replace=sm3_finish,sm2_fast_sign_pre_compute,sm2_fast_sign,sm2_signature_to_der
+//@job name=sm2_sign_finish props=C01,C06,C18 enforce=sm2_sign_finish replace=sm3_finish,sm2_fast_sign_pre_compute,sm2_fast_sign,sm2_signature_to_der
 void h_sm2_sign_finish(void)
 {
 	INPUT(z_in, Z); ASSUME(Z.npc <= SM2_SIGN_PRE_COMP_COUNT);
@@ -32,5 +32,27 @@ void h_sm2_sign_finish(void)
 	MKOUT(sig, SM2_MAX_SIGNATURE_SIZE); size_t siglen;
 	int ret = sm2_sign_finish((Z.mode & 1) ? NULL : ctx, (Z.mode & 2) ? NULL : sig, (Z.mode & 4) ? NULL : &siglen);
 	if (ret == 1) { CANARY("signed"); }
+	CANARY("returned");
+}
+
+//@job name=sm2_sign_reset props=C18 enforce=sm2_sign_reset
+void h_sm2_sign_reset(void)
+{
+	INPUT(z_in, Z);
+	SM2_SIGN_CTX *ctx = malloc(sizeof(SM2_SIGN_CTX)); ASSUME(ctx != NULL); ctx->num_pre_comp = Z.npc;
+	int ret = sm2_sign_reset(ctx);
+	NCHECK(ctx->num_pre_comp == Z.npc, "sm2_sign_reset leaves the unused-nonce counter alone");
+	CANARY("returned");
+}
+
+//@job name=sm2_sign_init props=C18,C01 enforce=sm2_sign_init replace=sm3_init,sm3_update,sm2_compute_z,sm2_fast_sign_pre_compute,sm2_fast_sign_compute_key
+void h_sm2_sign_init(void)
+{
+	INPUT(z_in, Z); ASSUME(Z.idlen <= 9000);
+	SM2_SIGN_CTX *ctx = malloc(sizeof(SM2_SIGN_CTX)); ASSUME(ctx != NULL);
+	SM2_KEY *key = malloc(sizeof(SM2_KEY)); ASSUME(key != NULL);
+	MKBUF(idb, Z.id, Z.idlen);
+	int ret = sm2_sign_init((Z.mode & 1) ? NULL : ctx, (Z.mode & 2) ? NULL : key, (Z.mode & 4) ? NULL : (const char *)idb, Z.idlen);
+	if (ret == 1) { CANARY("initialised"); }
 	CANARY("returned");
 }
